@@ -165,6 +165,7 @@ pub fn mk_shell(g: &mut G, local: &str, attrs: Vec<(&str, AV)>, empty_body: bool
         selfclose,
         tail: if g.rng.chance(1, 10) { " " } else { "" }.to_string(),
         end_tail: if g.rng.chance(1, 25) { " " } else { "" }.to_string(),
+        broken: String::new(),
     }
 }
 
@@ -373,6 +374,11 @@ fn gen_method(g: &mut G, name: String, no_line_ok: bool) -> Method {
         attrs.push(("line", AV::Num(line as u64, true)));
         Some(line)
     };
+    // a childless container (written `<method …/>` two times in three): `Empty` for the reader
+    if g.rng.chance(1, 12) {
+        body.clear();
+        g.f("container.childless.method");
+    }
     let shell = mk_shell(g, "method", attrs, body.is_empty());
     Method { name, line, shell, body }
 }
@@ -411,6 +417,11 @@ fn gen_class(g: &mut G, fq: String, sfn: Option<String>, cfg: &Cfg) -> Class {
     let mut attrs = vec![("name", AV::Text(fq.clone()))];
     if let Some(f) = &sfn {
         attrs.push(("sourcefilename", AV::Text(f.clone())));
+    }
+    // a childless container (written `<class …/>` two times in three): `Empty` for the reader
+    if g.rng.chance(1, 12) {
+        body.clear();
+        g.f("container.childless.class");
     }
     let shell = mk_shell(g, "class", attrs, body.is_empty());
     Class { fq, sfn, shell, body }
@@ -471,6 +482,11 @@ fn gen_source(g: &mut G, name: String, cfg: &Cfg) -> Source {
     }
     if !body.is_empty() {
         body.extend(gap(g).into_iter().map(SItem::Junk));
+    }
+    // a childless container (written `<sourcefile …/>` two times in three): `Empty` for the reader
+    if g.rng.chance(1, 12) {
+        body.clear();
+        g.f("container.childless.sourcefile");
     }
     let shell = mk_shell(g, "sourcefile", vec![("name", AV::Text(name.clone()))], body.is_empty());
     Source { name, shell, body }
@@ -576,6 +592,11 @@ pub fn gen_package(g: &mut G, name: String, cfg: &Cfg) -> Package {
     }
     if !body.is_empty() {
         body.extend(gap(g).into_iter().map(PItem::Junk));
+    }
+    // a childless container (written `<package …/>` two times in three): `Empty` for the reader
+    if g.rng.chance(1, 12) {
+        body.clear();
+        g.f("container.childless.package");
     }
     let shell = mk_shell(g, "package", vec![("name", AV::Text(name.clone()))], body.is_empty());
     Package { name, shell, body }
